@@ -387,6 +387,27 @@ PROPS = {
             'Location, Word, Text, HereDoc, Field, XTrace, expansion errors, CString, NulError, ParseIntError are opaque placeholders; EnumSet<T> is a ghost set of flags with assumed contracts for empty / | / into / contains; Mode, the option set (one option) and file status (one bit) are reduced models; Errno::EBADF = 9, EEXIST = 17, ENOENT = 2',
         ],
     },
+    'C13': {
+        'v_units': [],
+        'k_units': ['waitstatus'],
+        'level': 'other',
+        'explanation': (
+            'One object-level kernel of C13 only, bounded. Kani runs the real job_status closure of the wait built-in '
+            '(yash-builtin/src/wait/status.rs) - the step that turns the state of a child recorded in the job table into what `wait` '
+            'answers - on job tables holding one job (process state, ownership, job-control flags all symbolic; signals 1..64) or none: an '
+            'exited child yields its exit status, a signalled child 384 + the signal number, a stopped child is reported only under job '
+            'control and stays in the table, a running child is waited for, a job that is not the shell\'s own or an unknown index yields 127; '
+            'a finished child is removed from the table by the very call that reports it and asking again yields 127 (reaped exactly once at '
+            'the table level). NOT decided: everything C13 says about schedules - that the shell terminates without deadlock under every '
+            'interleaving, that the table is updated from the true wait status of the right child (wait_for_subshell, '
+            'update_all_subshell_statuses, the SIGCHLD handling), zombies, $!, the pipefail rule (four lines inside the async pipeline '
+            'executor), `wait` without operands. The family of technique is silent on interleavings; this check sees none of them.'),
+        'trusted_base': ['Kani 0.68.0 + CBMC 6.11', '/verif/tools/kunit.py'],
+        'assumptions': [
+            'std HashMap of the job table is replaced by the linear stand-in of the Kani pipeline (cfg verif_map)',
+            'tables of at most one job; the status test is applied twice; signals restricted to 1..64',
+        ],
+    },
     'C17': {
         'v_units': ['aliaselig'],
         'k_units': [],
